@@ -28,7 +28,12 @@ CLAIMED["C04"] = dict(
    ref="DESIGN.md §6 C04",
    note="Trusts: the atomic-turn + prefix-visibility model, the monitors' reading of executor state through the verif accessors, scenario templates that are deadlock-free by construction (every receive has a matching send). Transport loss/duplication is not injected because the real channels cannot produce it.",
    technique="deterministic simulation: seeded interleaving search with history oracle (receive logs) and per-step conservation/FIFO/wake-up invariants")
-PENDING = {k: 'claimed in DESIGN.md; check under construction in this revision (not yet registered)' for k in ['C05','C06','C10','C11','C13','C14','C15']}
+CLAIMED["C15"] = dict(
+   text="The injected fault is a process failure: a victim fails at a generated point (builtin domain errors, missing file, ownership violation, injected backend write error, spawn/send/nested-select inside a receive filter) inside a generated system of by-standers, direct and transitive single-source awaiters that await before, during or after the failure, and senders to the victim. Under every sampled schedule/configuration the by-standers and senders must end with their model results, every transitive awaiter with exactly the victim's error, the client with its value or that error; any panic or Err from Worker::step/Environment::step, any hang, and any abnormal child-process death is a violation. A multi-source selector listing the victim is counted but deliberately not judged (the statement is silent). Sampling, not proof.",
+   ref="DESIGN.md §6 C15",
+   note="Trusts: scenario templates and their host-side expectations, the SimBackend's model of open/read/write errors, the atomic-turn model. Only failure kinds in the template list are placed; builtin boundary-value search is out of scope (C12, n/a).",
+   technique="deterministic simulation with fault injection (process failure as the fault): seeded interleaving search with per-process outcome oracle and panic/Err/hang detection")
+PENDING = {k: 'claimed in DESIGN.md; check under construction in this revision (not yet registered)' for k in ['C05','C06','C10','C11','C13','C14']}
 
 def main():
     checks = []
